@@ -268,7 +268,9 @@ pub fn run(ctx: &Ctx) {
     ));
     ctx.set_exhaustive(true);
     ctx.assume("TypeScript-subset parser and shape normal form of the harness stand in for tsc; Zod `infer` is the harness model");
-    ctx.assume("D(()) = void everywhere, per the README table");
+    ctx.assume("D(()) = void everywhere, per the README table (serde writes null)");
+    ctx.assume("D(T) is validated on every run against values serialised by the real serde/serde_json (model/denote_fixtures.rs)");
+    ctx.note("oracle_fixtures_validated", json!(crate::model::denote_fixtures::validate()));
     let chains = enumerate_chains(depth, STRUCT, ENUM);
     let mut keys: Vec<(Ty, &'static str)> = vec![];
     for t in &chains {
